@@ -30,6 +30,7 @@ def alphabet_for(tkw, hc=None):
         A.append(L.tick(500, "Q", [p("PBn", trade=0, live_only=False)]))
         A.append(L.tick(2000, "Q", [p("XB", trade=0, live_only=False)]))
         A.append(L.tick(500, "Q", [p("XB"), p("PBn")]))  # two placements in one callback
+        A.append(L.tick(2000, "Q", [p("PBn")]))  # a passive order, then two seconds pass (cool-downs measured from later placements)
         if rich:
             A.append(L.tick(500, "Q", [p("XB", force=True)]))
             A.append(L.tick(2000, "Q", [p("XB")]))
